@@ -51,6 +51,13 @@ CHECKS["C15"] = ("E1-pure",
   "zero-syndrome 4-bit error plus a spare-bit flip. Each corrupted datagram must be rejected or decode to the original; the unaltered one must be accepted and carry the CCITT CRC.",
   "Flips confined to bits after the 4 fixed header octets. Trusts the harness's own CRC-16 implementation for the constructive class.",
   "DESIGN.md §5 C15")
+CHECKS["C16"] = ("E5-udp",
+  "exhaustive truncation lengths over a PDU corpus through a real UdpTransport on loopback + proptest datagram sequences; differential against decoding the datagram's own bytes",
+  "A fresh UdpTransport (real socket on 127.0.0.1) receives a long valid datagram followed by every truncation length 0..len of every corpus datagram (all PDU types, CRC on/off, "
+  "both file-size flags, 4 id-width combinations), and random sequences of 2-5 datagrams; each receive() result must equal PDU::decode of that datagram's own bytes. "
+  "Exhaustive over the corpus x truncation lengths x 3 predecessors; sequences sampled.",
+  "Loopback delivery in order and without loss (a 5 s timeout is reported as inconclusive, exit 2).",
+  "DESIGN.md §5 C16")
 NOT_YET = {}
 
 def main():
